@@ -466,9 +466,9 @@ Proof.
     apply lex_digits; auto; [lia|]. rewrite V1, V2. lia.
 Qed.
 
-(* ------------------------------------------------------------ the open finding: CR before LF
-   The tool reads lines with strip_cr = true (regenerated flag).  Byte-exact lines hold
-   for inputs without a CR directly before a LF; they fail for "a\r\n". *)
+(* ------------------------------------------------------------ CR before LF
+   (kept from the time shard read with strip_cr = true: stripping is the identity on
+   inputs without a CR directly before a LF) *)
 Fixpoint no_crlf (l : list Z) : bool :=
   match l with
   | [] => true
@@ -529,19 +529,10 @@ Proof.
   destruct (split_at 10%Z input []) as [rs t]. rewrite HS. rewrite map_id. reflexivity.
 Qed.
 
-(* partial: without a CR directly before a LF the output lines are the input lines, byte for byte *)
-Theorem shard_lines_bytewise_partial keyhash n input : 0 < n -> no_crlf input = true ->
+(* the tool reads its lines with strip_cr = false (regenerated flag): the output lines are
+   the input lines byte for byte, a CR before the LF included *)
+Theorem shard_lines_bytewise keyhash n input : 0 < n ->
   Permutation (concat (shard keyhash n (records 10%Z shard_strip_cr input))) (records 10%Z false input).
 Proof.
-  intros Hn H. change shard_strip_cr with true. rewrite records_no_crlf by exact H.
-  apply shard_partition. exact Hn.
-Qed.
-
-(* refuted in general: "a\r\n" comes out as "a\n" *)
-Theorem shard_lines_bytewise_refuted :
-  exists (keyhash : list Z -> N) n input, 0 < n /\
-    ~ Permutation (concat (shard keyhash n (records 10%Z shard_strip_cr input))) (records 10%Z false input).
-Proof.
-  exists (fun _ => 0), 1, [97; 13; 10]%Z. split; [lia|].
-  vm_compute. intros H. apply Permutation_length_1 in H. discriminate.
+  intros Hn. change shard_strip_cr with false. apply shard_partition. exact Hn.
 Qed.
